@@ -14,7 +14,7 @@ pub fn property() -> Property {
     Property {
         id: "C19",
         level: "fault_enumeration",
-        rule: "The scripted peer serves a prefix of a well-formed response and then PAUSES (a read arriving at the pause is what would block on a real socket and is recorded as blocked_read). Pause points: EVERY wire offset from the end of the head to the end of the frame for 18 fixed small responses (exhaustive; covers after-the-head, after each complete chunk, inside size lines / CRLFs, after every byte of length- and close-delimited bodies), sampled offsets and chunk boundaries for random and > 64 KiB bodies; served prefix as one segment, bytewise or random segments; caller read sizes {1,2,7,4096, larger than available}. 'tls-pause': the statement over TLS - a real loopback TLS server sends head + 5 000 body bytes, pauses 2 s, sends the rest (three framings x caller buffers 65 536 / 40 000 / 16 384 / 1): send() returns and the first part is readable within 1.2 s. Oracle (purely logical, no clock): send() returns Ok with zero blocked reads once the blank line was served; while the caller has received less than the AVAILABLE payload (all served bytes for length/close framing; data of every chunk whose trailing CRLF was served, computed by the reference decoder) no read may block, fail or report end-of-body, and delivered bytes equal the payload prefix; when the whole frame (length/chunked) was served the end-of-body read returns Ok(0) without blocking; a followed redirect whose body the server holds back (5 statuses x 3 framings x 4 amounts served) is followed without a blocked read on the first connection; with two requests in flight on real loopback sockets, the one whose response has arrived is delivered while the other one's server is still silent. write_to() and split().2.write_to() are driven at every pause offset of the 18 fixed responses too: the caller's writer must have received all AVAILABLE bytes before write_to first asks the transport for bytes the server has not sent. Non-trivial: available > 0 or pause right after the head; distinct = hash(wire, pause offset, segmentation, read size).",
+        rule: "The scripted peer serves a prefix of a well-formed response and then PAUSES (a read arriving at the pause is what would block on a real socket and is recorded as blocked_read). Pause points: EVERY wire offset from the end of the head to the end of the frame for 18 fixed small responses (exhaustive; covers after-the-head, after each complete chunk, inside size lines / CRLFs, after every byte of length- and close-delimited bodies), sampled offsets and chunk boundaries for random and > 64 KiB bodies; served prefix as one segment, bytewise or random segments; caller read sizes {1,2,7,4096, larger than available}. 'tls-pause': the statement over TLS - a real loopback TLS server sends head + 5 000 body bytes, pauses 2 s, sends the rest (three framings x caller buffers 65 536 / 40 000 / 16 384 / 1): send() returns and the first part is readable within 1.2 s. Oracle (purely logical, no clock): send() returns Ok with zero blocked reads once the blank line was served; while the caller has received less than the AVAILABLE payload (all served bytes for length/close framing; data of every chunk whose trailing CRLF was served, computed by the reference decoder) no read may block, fail or report end-of-body, and delivered bytes equal the payload prefix; when the whole frame (length/chunked) was served the end-of-body read returns Ok(0) without blocking, and so do two further reads; a followed redirect whose body the server holds back (5 statuses x 3 framings x 4 amounts served) is followed without a blocked read on the first connection; with two requests in flight on real loopback sockets, the one whose response has arrived is delivered while the other one's server is still silent. write_to() and split().2.write_to() are driven at every pause offset of the 18 fixed responses too: the caller's writer must have received all AVAILABLE bytes before write_to first asks the transport for bytes the server has not sent. Non-trivial: available > 0 or pause right after the head; distinct = hash(wire, pause offset, segmentation, read size).",
         assumptions: &["uncompressed bodies only (the statement's quantifier)", "delivering more than the statement's minimum (e.g. the first 64 KiB of an incomplete chunk) is not a violation"],
         min_nontrivial: |t| t.pick(5_000, 100_000),
         gens,
@@ -218,7 +218,23 @@ pub fn run_case(ctx: &mut Ctx, rng: &mut Rng, c: &Case) {
         let blocked = world.trace(0).blocked_reads;
         ctx.count("eof_without_blocking_checked", 1);
         match res {
-            Ok(0) if blocked == 0 => {}
+            Ok(0) if blocked == 0 => {
+                // ... and stays reported: a caller that reads again after Ok(0) gets Ok(0) again at
+                // once - the end of a complete frame is not forgotten and the connection (which the
+                // server keeps open here) is not asked for more
+                for k in 0..2 {
+                    let again = resp.read(&mut buf);
+                    let blocked = world.trace(0).blocked_reads;
+                    ctx.count("reads_repeated_after_end_of_body", 1);
+                    if !matches!(again, Ok(0)) || blocked > 0 {
+                        ctx.violation(
+                            format!("end-of-body-blocked:re-read:{}", c.framing.name()),
+                            descr(&format!("the whole frame had arrived and the end of the body had been reported; read #{} after that gave {again:?} with {blocked} blocked transport reads", k + 1)),
+                        );
+                        break;
+                    }
+                }
+            }
             other => ctx.violation(
                 format!("end-of-body-blocked:{}", c.framing.name()),
                 descr(&format!("the whole frame had arrived but the end-of-body read gave {other:?} with {blocked} blocked transport reads")),
